@@ -3,10 +3,12 @@
 (PYTHONPATH puts the worktree in front of the editable install; /repo itself is not touched).  Every check must exit 0.
 usage: tools/allbenign.py [name-filter ...]   -> writes benign/RESULTS.json"""
 import json, os, subprocess, sys
-names = sorted(d for d in os.listdir("/verif/benign") if os.path.isdir("/verif/benign/" + d))
+ROOT = os.path.dirname(os.path.dirname(os.path.abspath(__file__)))
+OUT = os.environ.get("SWEEP_OUT", ROOT + "/benign/RESULTS.json")
+names = sorted(d for d in os.listdir(ROOT + "/benign") if os.path.isdir(ROOT + "/benign/" + d))
 if len(sys.argv) > 1:
     names = [n for n in names if any(a in n for a in sys.argv[1:])]
-wt = "/tmp/benign-wt"
+wt = "/tmp/benign-wt-%d" % os.getpid()
 subprocess.run(["git", "-C", "/repo", "worktree", "remove", "--force", wt], capture_output=True)
 subprocess.run(["git", "-C", "/repo", "worktree", "add", "--detach", wt, "HEAD"], check=True, capture_output=True)
 out = {}
@@ -14,19 +16,20 @@ try:
     env = dict(os.environ, PYTHONPATH=wt + "/src")
     for n in names:
         subprocess.run(["git", "-C", wt, "checkout", "-q", "--", "."], check=True)
-        if subprocess.run(["git", "-C", wt, "apply", "/verif/benign/%s/patch.diff" % n]).returncode:
+        if subprocess.run(["git", "-C", wt, "apply", ROOT + "/benign/%s/patch.diff" % n]).returncode:
             out[n] = {"error": "patch does not apply"}
             print(n, "PATCH DOES NOT APPLY", flush=True)
             continue
         res = {}
         for c in ["C%02d" % i for i in range(1, 21)]:
-            r = subprocess.run(["./check", c, "--tier", "quick"], cwd="/verif", env=env, capture_output=True, text=True, timeout=3600)
+            r = subprocess.run(["./check", c, "--tier", "quick"], cwd=ROOT, env=env, capture_output=True, text=True, timeout=3600)
             res[c] = r.returncode
         out[n] = res
         print(n, "alarms:", [c for c, rc in res.items() if rc != 0], flush=True)
+        json.dump(out, open(OUT, "w"), indent=1)
 finally:
     subprocess.run(["git", "-C", "/repo", "worktree", "remove", "--force", wt], capture_output=True)
-json.dump(out, open("/verif/benign/RESULTS.json", "w"), indent=1)
+json.dump(out, open(OUT, "w"), indent=1)
 bad = {n: [c for c, rc in r.items() if rc != 0] for n, r in out.items() if "error" in r or any(rc != 0 for rc in r.values())}
 print("changes that raised an alarm:", bad)
 sys.exit(1 if bad else 0)
